@@ -180,6 +180,19 @@ def alias_rule_paths(col, gcode, paths, I):
                 configured = (p.st.dom[k] == frozenset([False]))
             mode_consulted = any(k[0] == 'valueof' and 'cfg:extendedExcludeGcodes' in repr(k) and '.mode' in repr(k) for k in p.st.dom)
             mutated = any(e[0].startswith('map-') and str(e[1]).endswith('pendingCommands') for e in p.st.trace)
+            # one slot per configured code: whatever is recorded for the code is recorded under the code itself (the key
+            # the configuration is looked up with) - a key derived from anything else (the sub code, the parameters) gives
+            # one configured code several deferred commands
+            for e in p.st.trace:
+                if e[0].startswith('map-') and str(e[1]).endswith('pendingCommands'):
+                    for k in live_alts(p.st, e[2]):
+                        if not (isinstance(k, Str) and k.s == gcode):
+                            col.report('C06.R7', e[-1] if isinstance(e[-1], str) else 'ExcludeRegionState.processExtendedGcode',
+                                       'deferred command recorded under %r' % (k,),
+                                       'the deferred command of a configured code is kept under a key other than the code: the '
+                                       'code can then own several slots and more than one command is sent for it when the '
+                                       'episode ends')
+                            break
             if f.pre_excluding is not True:
                 if f.kind != 'none' or mutated:
                     col.report('C06.R7', 'ExcludeRegionState.processExtendedGcode', 'outside an episode -> %s' % f.describe(),
